@@ -335,7 +335,7 @@ fn exec(c: &Case) -> Vec<String> {
             }
         });
     });
-    match rx.recv_timeout(Duration::from_secs(20)) {
+    match rx.recv_timeout(Duration::from_secs(20 * nvh::load_factor() as u64)) {
         Ok(v) => v,
         Err(_) => vec!["blocked".into()],
     }
